@@ -283,6 +283,7 @@ type Fail struct {
 	Property string `json:"property"`
 	History  string `json:"history"`
 	Step     int    `json:"step"` // index of the op (0-based); -1 = whole history
+	ObsStep  int    `json:"obs_step"` // index of the op's line in the observation files (shifted by inserted ops)
 	Msg      string `json:"msg"`
 }
 
@@ -474,6 +475,14 @@ func cmdRun(fl map[string]string) {
 			_ = os.RemoveAll(sub)
 			for k := range res.Fails {
 				res.Fails[k].History = h.ID
+				shift := 0
+				for j := 0; j < res.Fails[k].Step; j++ {
+					shift += len(res.Inserted[j])
+				}
+				res.Fails[k].ObsStep = res.Fails[k].Step + shift
+				if res.Fails[k].Step < 0 {
+					res.Fails[k].ObsStep = -1
+				}
 			}
 			results[i] = res
 		}(i, h)
